@@ -57,6 +57,8 @@ int stp_compare_ci__pc_pc_sz(const char *left, const char *right, unsigned long 
 {
     __CPROVER_assert(fsize == 0 || (__CPROVER_r_ok(left, fsize) && __CPROVER_r_ok(right, fsize)), "compare_ci.precondition: both ranges readable");
     int r = nondet_int(); size_t w = nondet_size_t();
+    if (TRC_CALLS > 0 && TRC_CI && TRC_A == (const void *)left && TRC_B == (const void *)right && TRC_N == fsize) { TRC_CALLS++; return TRC_R; }   /* a function of its arguments */
+    TRC_CALLS++;
     if (fsize == 0) r = 0;
     if (!TR_FACTS) { w = fsize; }
     else if (r == 0) { __CPROVER_assume((GI0 < fsize ==> FOLD(left[GI0]) == FOLD(right[GI0])) && (GI1 < fsize ==> FOLD(left[GI1]) == FOLD(right[GI1]))); w = fsize; }
